@@ -77,7 +77,17 @@ def run(tier, argv):
     gpath, g = jsongraph.export_schema_graph(work, sd, srd, rep, "a")
     out = work.path("spos.ndjson")
     notes = work.path("snotes.ndjson")
-    p = vlib.run_harness(hbin, ["c05graph", "-graph", gpath, "-out", out, "-positions", "-sut", "schema", "-notes", notes], timeout=6000)
+    # real texts as well: every prefix of every filled spelling of the Gaps token lists (schemas only)
+    rawg = work.path("gaps.txt")
+    rg = vlib.tlc(work, "Gaps", "Gaps.cfg", consts={"Strength": "1"}, to_file=rawg, timeout=3000, workers=1, heap="8g")
+    rep.add_tlc(rg, "Gaps (texts whose prefixes are located)")
+    ptexts = work.path("prefix-texts.ndjson")
+    with open(ptexts, "w") as f:
+        for l in vlib.tagged_file(rawg, "@@CASE"):
+            c = json.loads(l)
+            if c["kind"] == "schema":
+                f.write(json.dumps(c["text"]) + "\n")
+    p = vlib.run_harness(hbin, ["c05graph", "-graph", gpath, "-out", out, "-positions", "-sut", "schema", "-notes", notes, "-prefixes", ptexts], timeout=6000)
     if p.returncode != 0:
         raise vlib.Infra("c05graph (schema) failed: " + p.stderr.decode()[-2000:])
     for l in p.stderr.decode().split("\n"):
